@@ -457,11 +457,11 @@ fn run_property(prop: &str, ctx: &mut Ctx) {
     match prop {
         "C01" => {
             ctx.wrap_suite("C01.wrap.slices", "every line = indent ++ in-order slice (++ inserted hyphen); only spaces / line endings skipped; borrowed when possible; no trailing space; fill = lines joined",
-                A_WRAP, l(4, 5), option_grid(true), widths_small(), l(2, 3), if th { 2_000_000 } else { 60_000 }, props_wrap::c01_slices);
+                A_WRAP, l(4, 5), option_grid(true), widths_small(), l(2, 3), if th { 10_000_000 } else { 60_000 }, props_wrap::c01_slices);
         }
         "C02" => {
             ctx.wrap_suite("C02.wrap.first_fit_fits", "first-fit: line width <= width unless the part after the indent is one unbreakable fragment",
-                A_WRAP, l(4, 5), first_fit_only(option_grid(true)).into_iter().filter(|o| o.spl != Spl::Every2).collect(), vec![0, 1, 2, 3, 4, 5, 6, 8], l(2, 3), if th { 2_000_000 } else { 60_000 }, props_wrap::c02_fits);
+                A_WRAP, l(4, 5), first_fit_only(option_grid(true)).into_iter().filter(|o| o.spl != Spl::Every2).collect(), vec![0, 1, 2, 3, 4, 5, 6, 8], l(2, 3), if th { 10_000_000 } else { 60_000 }, props_wrap::c02_fits);
         }
         "C03" => {
             #[cfg(feature = "full")]
@@ -472,12 +472,12 @@ fn run_property(prop: &str, ctx: &mut Ctx) {
                 ctx.strings("C03.dispatch.optimal_fit", "WrapAlgorithm::OptimalFit(default).wrap(words, widths) == wrap_optimal_fit(words, widths as f64, default penalties)",
                     &["a ", "bb ", "ccc ", "dddd ", "e"], l(6, 7), vec![1], WIDTH_LISTS.to_vec(), props_frag::dispatch_same);
                 frag_cases(ctx, "A6.smawk.call_shape", "assumed contract A6 of smawk::online_column_minima (call arguments and returned table shape)", l(4, 5), a6_smawk_shape, false, vec![DEFAULT_PEN]);
-                frag_random(ctx, "A6.smawk.call_shape.random", "same, longer random sequences", if th { 2_000_000 } else { 40_000 }, 40, true, a6_smawk_shape, false);
-                frag_random(ctx, "C03.optimal_fit.minimal_cost.random", "same, random sequences", if th { 2_000_000 } else { 40_000 }, if th { 14 } else { 10 }, false, c03_optimal, true);
+                frag_random(ctx, "A6.smawk.call_shape.random", "same, longer random sequences", if th { 10_000_000 } else { 40_000 }, 40, true, a6_smawk_shape, false);
+                frag_random(ctx, "C03.optimal_fit.minimal_cost.random", "same, random sequences", if th { 10_000_000 } else { 40_000 }, if th { 14 } else { 10 }, false, c03_optimal, true);
                 let grid: Vec<Opts> = option_grid(true).into_iter().filter(|o| o.algo == Algo::OptimalFit && !o.break_words).collect();
                 ctx.text_grid("C03.wrap.minimal_cost_text", "optimal-fit, no force-breaking: each paragraph's lines are a minimum-cost arrangement of its fragments for the widths actually rendered",
                     &[" ", "a", "bc", "def", "é", "你", "g-h", "\x1b[31m"], l(4, 5), grid.clone(), vec![2, 3, 4, 5, 6, 8, 11], props_wrap::c03_text);
-                ctx.text_random("C03.wrap.minimal_cost_text.random", "same, longer random texts", &[" ", "a", "bc", "def", "é", "你", "g-h", "中文", "ijkl"], 16, if th { 1_000_000 } else { 40_000 }, grid, props_wrap::c03_text);
+                ctx.text_random("C03.wrap.minimal_cost_text.random", "same, longer random texts", &[" ", "a", "bc", "def", "é", "你", "g-h", "中文", "ijkl"], 16, if th { 5_000_000 } else { 40_000 }, grid, props_wrap::c03_text);
             }
         }
         "C04" => {
@@ -487,9 +487,9 @@ fn run_property(prop: &str, ctx: &mut Ctx) {
                 A_ADVERSARIAL, l(2, 3), grid.clone(), vec![0, 1, 2, 7, usize::MAX], c04_total);
             ctx.strings("A4.std_models", "the std behaviour the Verus side-cars assume of their transparent wrappers (lines, split with positions, split over a concatenation, split_terminator, trim*, find, match_indices, char_indices, classifiers)",
                 &[" ", "a", "\n", "\r", "-", "é", "\t", "\u{3000}"], l(6, 7), vec![0], vec![""], a4_std_models);
-            ctx.strings_random("A4.std_models.random", "same (long random strings, sampled)", false, 30, if th { 1_000_000 } else { 40_000 }, vec![0], vec![""], a4_std_models);
-            ctx.text_random("C04.total.public_api.random", "same, long random texts", A_ADVERSARIAL, 30, if th { 2_000_000 } else { 60_000 }, grid, c04_total);
-            frag_random(ctx, "C04.total.fragments", "both algorithms return for arbitrary finite f64 fragments", if th { 2_000_000 } else { 60_000 }, 12, true, |c| {
+            ctx.strings_random("A4.std_models.random", "same (long random strings, sampled)", false, 30, if th { 5_000_000 } else { 40_000 }, vec![0], vec![""], a4_std_models);
+            ctx.text_random("C04.total.public_api.random", "same, long random texts", A_ADVERSARIAL, 30, if th { 10_000_000 } else { 60_000 }, grid, c04_total);
+            frag_random(ctx, "C04.total.fragments", "both algorithms return for arbitrary finite f64 fragments", if th { 10_000_000 } else { 60_000 }, 12, true, |c| {
                 let _ = textwrap::wrap_algorithms::wrap_first_fit(&c.frags, &c.widths);
                 #[cfg(feature = "full")]
                 let _ = textwrap::wrap_algorithms::wrap_optimal_fit(&c.frags, &c.widths, &c.penalties());
@@ -498,33 +498,33 @@ fn run_property(prop: &str, ctx: &mut Ctx) {
         }
         "C05" => {
             ctx.wrap_suite("C05.wrap.shortcut", "fast path == slow path for wrap_single_line and fill; a paragraph that fits is returned as one line",
-                &[" ", "a", "bc", "é", "你", "\x1b[31m", "\n", "-", "\t"], l(4, 5), option_grid(false), vec![0, 1, 2, 3, 4, 5, 6, 7, 8, 10, 12, 16], l(2, 3), if th { 2_000_000 } else { 60_000 }, props_wrap::c05_shortcut);
+                &[" ", "a", "bc", "é", "你", "\x1b[31m", "\n", "-", "\t"], l(4, 5), option_grid(false), vec![0, 1, 2, 3, 4, 5, 6, 7, 8, 10, 12, 16], l(2, 3), if th { 10_000_000 } else { 60_000 }, props_wrap::c05_shortcut);
         }
         "C06" => {
             frag_cases(ctx, "C06.first_fit.partition", "lines are non-empty contiguous runs concatenating to the input; empty input -> one empty line", l(4, 6), c06_first_fit, false, vec![DEFAULT_PEN]);
-            frag_random(ctx, "C06.first_fit.partition.random", "same, arbitrary finite f64", if th { 3_000_000 } else { 60_000 }, 16, true, c06_first_fit, false);
+            frag_random(ctx, "C06.first_fit.partition.random", "same, arbitrary finite f64", if th { 15_000_000 } else { 60_000 }, 16, true, c06_first_fit, false);
             #[cfg(feature = "full")]
             {
                 frag_cases(ctx, "A6.smawk.call_shape", "assumed contract A6 of smawk::online_column_minima (call arguments and returned table shape)", l(4, 5), a6_smawk_shape, false, vec![DEFAULT_PEN]);
                 frag_cases(ctx, "C06.optimal_fit.partition", "same for optimal-fit", l(4, 6), c06_optimal_fit, false, vec![DEFAULT_PEN, [0, 0, 1, 0, 0]]);
-                frag_random(ctx, "C06.optimal_fit.partition.random", "same, arbitrary finite f64", if th { 3_000_000 } else { 60_000 }, 16, true, c06_optimal_fit, false);
+                frag_random(ctx, "C06.optimal_fit.partition.random", "same, arbitrary finite f64", if th { 15_000_000 } else { 60_000 }, 16, true, c06_optimal_fit, false);
             }
         }
         "C07" => {
             frag_cases(ctx, "C07.first_fit.greedy", "a new line starts exactly when the line is non-empty and acc + width + penalty > line width", l(4, 6), c07_greedy, false, vec![DEFAULT_PEN]);
-            frag_random(ctx, "C07.first_fit.greedy.random", "same, arbitrary finite f64", if th { 3_000_000 } else { 60_000 }, 16, true, c07_greedy, false);
+            frag_random(ctx, "C07.first_fit.greedy.random", "same, arbitrary finite f64", if th { 15_000_000 } else { 60_000 }, 16, true, c07_greedy, false);
             ctx.strings("C07.dispatch.first_fit", "WrapAlgorithm::FirstFit.wrap(words, widths) == wrap_first_fit(words, widths as f64): every listed width reaches the algorithm, in order",
                 &["a ", "bb ", "ccc ", "dddd ", "e"], l(6, 7), vec![0], WIDTH_LISTS.to_vec(), props_frag::dispatch_same);
             ctx.wrap_suite("C07.wrap.greedy_text", "ASCII separator, hyphen or no splitter, no force-breaking: wrap == the greedy rule applied to the space-delimited words cut at the splitter's split points",
-                A_WRAP, l(4, 5), first_fit_only(option_grid(true)).into_iter().filter(|o| o.sep == Sep::Ascii && o.spl != Spl::Every2 && !o.break_words).collect(), vec![0, 1, 2, 3, 4, 5, 6, 8], l(3, 3), if th { 2_000_000 } else { 60_000 }, props_wrap::c07_text);
+                A_WRAP, l(4, 5), first_fit_only(option_grid(true)).into_iter().filter(|o| o.sep == Sep::Ascii && o.spl != Spl::Every2 && !o.break_words).collect(), vec![0, 1, 2, 3, 4, 5, 6, 8], l(3, 3), if th { 10_000_000 } else { 60_000 }, props_wrap::c07_text);
         }
         "C08" => {
             ctx.wrap_suite("C08.wrap.indent", "line 0 starts with initial_indent, later lines with subsequent_indent; remainder depends only on the indents' widths",
-                A_WRAP, l(4, 5), option_grid(true), widths_small(), l(2, 3), if th { 2_000_000 } else { 60_000 }, props_wrap::c08_indent);
+                A_WRAP, l(4, 5), option_grid(true), widths_small(), l(2, 3), if th { 10_000_000 } else { 60_000 }, props_wrap::c08_indent);
         }
         "C09" => {
             ctx.wrap_suite("C09.wrap.paragraphs", "wrap(a+E+b) begins with wrap(a); the rest does not depend on a; fill = join; LF<->CRLF equivariance",
-                &[" ", "a", "bc", "\n", "é", "-", "\t"], l(5, 6), option_grid(false), vec![0, 1, 2, 3, 5, 8], l(2, 3), if th { 2_000_000 } else { 60_000 }, props_wrap::c09_paragraphs);
+                &[" ", "a", "bc", "\n", "é", "-", "\t"], l(5, 6), option_grid(false), vec![0, 1, 2, 3, 5, 8], l(2, 3), if th { 10_000_000 } else { 60_000 }, props_wrap::c09_paragraphs);
             let mut g = option_grid(false);
             for o in g.iter_mut() {
                 o.crlf = true;
@@ -541,17 +541,17 @@ fn run_property(prop: &str, ctx: &mut Ctx) {
             ctx.reports.push(r);
             ctx.strings("C10.display_width.strings", "== sum of widths outside CSI/OSC sequences (well-formed texts); additive; invariant under inserting sequences; <= byte length (all texts)",
                 A_ANSI, l(4, 6), vec![0], vec![""], props_words::c10_strings);
-            ctx.strings_random("C10.display_width.strings.random", "same (long random strings, sampled)", false, 30, if th { 1_000_000 } else { 40_000 }, vec![0], vec![""], props_words::c10_strings);
+            ctx.strings_random("C10.display_width.strings.random", "same (long random strings, sampled)", false, 30, if th { 5_000_000 } else { 40_000 }, vec![0], vec![""], props_words::c10_strings);
         }
         "C11" => {
             ctx.strings("C11.find_words.ascii", "lossless; whitespace is spaces; no trailing space in words; width cached; boundaries = space followed by non-space",
                 A_WORDS, l(4, 6), vec![0], vec![""], props_words::c11_ascii);
-            ctx.strings_random("C11.find_words.ascii.random", "same (long random lines, sampled)", true, 30, if th { 1_000_000 } else { 40_000 }, vec![0], vec![""], props_words::c11_ascii);
+            ctx.strings_random("C11.find_words.ascii.random", "same (long random lines, sampled)", true, 30, if th { 5_000_000 } else { 40_000 }, vec![0], vec![""], props_words::c11_ascii);
             #[cfg(feature = "full")]
             ctx.strings("C11.find_words.unicode", "lossless ...; boundaries = UAX#14 opportunities of the stripped line minus those after '-'/SHY, none inside a sequence",
                 A_WORDS, l(4, 5), vec![0], vec![""], props_words::c11_unicode);
             #[cfg(feature = "full")]
-            ctx.strings_random("C11.find_words.unicode.random", "same (long random lines, sampled)", true, 30, if th { 1_000_000 } else { 40_000 }, vec![0], vec![""], props_words::c11_unicode);
+            ctx.strings_random("C11.find_words.unicode.random", "same (long random lines, sampled)", true, 30, if th { 5_000_000 } else { 40_000 }, vec![0], vec![""], props_words::c11_unicode);
             #[cfg(feature = "full")]
             ctx.strings("A13.linebreaks.shape", "unicode_linebreak::linebreaks(s): strictly increasing char boundaries in 1..=len (the shape unit U20 assumes)",
                 A_WORDS, l(4, 5), vec![0], vec![""], props_words::a13_linebreaks_shape);
@@ -561,19 +561,19 @@ fn run_property(prop: &str, ctx: &mut Ctx) {
                 &["a", "b", "-", "1", "你", "é", " ", "_"], l(5, 7), vec![0, 1], vec!["None", "Hyphen", "Every2"], props_words::c12_split);
             ctx.strings("C12.break_apart", "pieces concatenate, non-empty, <= limit unless a single wide char, maximal, never inside a sequence, widths cached; pass-through",
                 A_WORD, l(4, 6), vec![0, 1, 2, 3, 5], vec!["", "pen"], props_words::c12_break);
-            ctx.strings_random("C12.break_apart.random", "same (long random words, sampled)", true, 20, if th { 1_000_000 } else { 40_000 }, vec![0, 1, 2, 3, 5, 8], vec!["", "pen"], props_words::c12_break);
-            ctx.strings_random("C12.split_words.random", "same (long random words, sampled)", true, 20, if th { 1_000_000 } else { 40_000 }, vec![0, 1], vec!["None", "Hyphen", "Every2"], props_words::c12_split);
+            ctx.strings_random("C12.break_apart.random", "same (long random words, sampled)", true, 20, if th { 5_000_000 } else { 40_000 }, vec![0, 1, 2, 3, 5, 8], vec!["", "pen"], props_words::c12_break);
+            ctx.strings_random("C12.split_words.random", "same (long random words, sampled)", true, 20, if th { 5_000_000 } else { 40_000 }, vec![0, 1], vec!["None", "Hyphen", "Every2"], props_words::c12_split);
         }
         "C13" => {
             colour_cases(ctx, l(3, 4));
         }
         "C14" => {
             let grid: Vec<Opts> = option_grid(false).into_iter().filter(|o| o.initial.is_empty() && o.subsequent.is_empty()).collect();
-            ctx.wrap_suite("C14.fill.idempotent", "fill(fill(t)) == fill(t) under the stated conditions", A_WRAP, l(4, 6), grid, vec![1, 2, 3, 4, 5, 6, 8, 12], l(2, 3), if th { 2_000_000 } else { 60_000 }, props_wrap::c14_idempotent);
+            ctx.wrap_suite("C14.fill.idempotent", "fill(fill(t)) == fill(t) under the stated conditions", A_WRAP, l(4, 6), grid, vec![1, 2, 3, 4, 5, 6, 8, 12], l(2, 3), if th { 10_000_000 } else { 60_000 }, props_wrap::c14_idempotent);
         }
         "C15" => {
             ctx.strings("C15.unfill.structural", "indents are prefixes made of prefix characters; no interior line break; line-ending detection", A_UNFILL, l(5, 7), vec![0], vec![""], c15_structural);
-            ctx.strings_random("C15.unfill.structural.random", "same (long random texts, sampled)", false, 30, if th { 1_000_000 } else { 40_000 }, vec![0], vec![""], c15_structural);
+            ctx.strings_random("C15.unfill.structural.random", "same (long random texts, sampled)", false, 30, if th { 5_000_000 } else { 40_000 }, vec![0], vec![""], c15_structural);
             refill_cases(ctx, "C15.unfill.roundtrip", "unfill(fill(paragraph)) recovers text, indents, width and line ending", l(3, 5), c15_roundtrip);
         }
         "C16" => {
@@ -581,15 +581,15 @@ fn run_property(prop: &str, ctx: &mut Ctx) {
         }
         "C17" => {
             ctx.strings("C17.fill_inplace", "same length; only ' ' -> '\\n'; lines == wrap with the documented options", A_INPLACE, l(5, 6), vec![0, 1, 2, 3, 4, 6, 9], vec![""], props_wrap::c17_inplace);
-            ctx.strings_random("C17.fill_inplace.random", "same (long random texts, sampled)", false, 30, if th { 1_000_000 } else { 40_000 }, vec![0, 1, 2, 3, 4, 6, 9, 14], vec![""], props_wrap::c17_inplace);
+            ctx.strings_random("C17.fill_inplace.random", "same (long random texts, sampled)", false, 30, if th { 5_000_000 } else { 40_000 }, vec![0, 1, 2, 3, 4, 6, 9, 14], vec![""], props_wrap::c17_inplace);
         }
         "C18" => {
             ctx.strings("C18.dedent", "removes exactly the longest common whitespace margin; idempotent; dedent(indent(s,p)) == dedent(s)", A_DEDENT, l(7, 9), vec![0], vec![""], c18_dedent);
-            ctx.strings_random("C18.dedent.random", "same (long random texts, sampled)", false, 30, if th { 1_000_000 } else { 40_000 }, vec![0], vec![""], c18_dedent);
+            ctx.strings_random("C18.dedent.random", "same (long random texts, sampled)", false, 30, if th { 5_000_000 } else { 40_000 }, vec![0], vec![""], c18_dedent);
         }
         "C19" => {
             ctx.strings("C19.indent", "every line prefixed (trimmed prefix on blank lines); newline structure kept; indent(s,\"\") == s", A_INDENT, l(6, 8), vec![0], vec!["", "  ", "> ", "\t", "// "], c19_indent);
-            ctx.strings_random("C19.indent.random", "same (long random texts, sampled)", false, 30, if th { 1_000_000 } else { 40_000 }, vec![0], vec!["", "  ", "> ", "\t", "// ", "\u{3000}x "], c19_indent);
+            ctx.strings_random("C19.indent.random", "same (long random texts, sampled)", false, 30, if th { 5_000_000 } else { 40_000 }, vec![0], vec!["", "  ", "> ", "\t", "// ", "\u{3000}x "], c19_indent);
         }
         "C20" => {
             col_cases(ctx, l(4, 6));
